@@ -208,6 +208,10 @@ pub fn run(a: &Args, rep: &mut Report) {
         }
     }
     // the default table is MAX = 8 and starts with the null descriptor
+    let dd: GlobalDescriptorTable = Default::default();
+    if catch(|| raw_entries(&dd) != vec![0] || dd.limit() != 7) != Ok(false) {
+        rep.violation("Default::default|not-just-the-null-descriptor", J::Null);
+    }
     let d = GlobalDescriptorTable::new();
     if catch(|| raw_entries(&d) != vec![0] || d.limit() != 7) != Ok(false) {
         rep.violation("new|not-just-the-null-descriptor", J::Null);
